@@ -6,10 +6,10 @@ OUT=${OUT:-build/selftest.tsv}
 mkdir -p build; : > $OUT
 list=$(mktemp)
 for f in mutants/*.diff; do echo "$f $(basename $f | cut -d- -f2) $(basename $f .diff)" >> $list; done
-for d in seeded/*/; do id=$(basename $d); grep -q '"superseded"' $d/meta.json && continue; also=$(python3 -c "import json,sys; print(\",\".join(json.load(open(sys.argv[1])).get(\"also\",[])))" $d/meta.json 2>/dev/null); echo "$d/patch.diff ${id%-*}${also:+,$also} $id" >> $list; done
+for d in seeded/*/; do id=$(basename $d); grep -q '"superseded"' $d/meta.json && continue; also=$(python3 -c "import json,sys; print(\",\".join(json.load(open(sys.argv[1])).get(\"also\",[])))" $d/meta.json 2>/dev/null); tier=$(python3 -c "import json,sys; print(json.load(open(sys.argv[1])).get(\"tier\",\"quick\"))" $d/meta.json 2>/dev/null); echo "$d/patch.diff ${id%-*}${also:+,$also} $id $tier" >> $list; done
 one() {
   for p in $(echo $2 | tr , ' '); do
-    line=$(tools/seedrun.py $1 $p quick 2>&1 | grep -E "exit=" | head -1)
+    line=$(tools/seedrun.py $1 $p ${4:-quick} 2>&1 | grep -E "exit=" | head -1)
     rc=$(echo "$line" | sed -n 's/.* exit=\([0-9]*\) .*/\1/p')
     sig=$(echo "$line" | sed -n 's/.*---- \(.*\)/\1/p' | cut -c1-160)
     printf "%s\t%s\t%s\t%s\n" "$3" "$p" "$rc" "$sig" >> $OUT
@@ -18,6 +18,6 @@ one() {
 }
 export -f one; export OUT
 # shuffle deterministically so that the expensive properties (C08, C17) are spread over the lanes
-sort -t' ' -k3 $list | awk '{print NR%7, $0}' | sort -n -s -k1,1 | cut -d' ' -f2- | xargs -P ${LANES:-3} -L 1 bash -c 'one "$0" "$1" "$2"'
+sort -t' ' -k3 $list | awk '{print NR%7, $0}' | sort -n -s -k1,1 | cut -d' ' -f2- | xargs -P ${LANES:-3} -L 1 bash -c 'one "$0" "$1" "$2" "$3"'
 rm -f $list
 echo "selftest: $(awk -F'\t' '$3==1' $OUT | wc -l) detected, $(awk -F'\t' '$3!=1' $OUT | wc -l) missed"
